@@ -1,11 +1,12 @@
 PROPERTY = "C13"
 LEVEL = "proof"
-LEAN_MODULES = ["CifModel.Props.C13", "CifModel.Props.C13Doc", "CifModel.Props.C13First", "CifModel.Props.C13Lines", "CifModel.Props.ReviewC13"]
+LEAN_MODULES = ["CifModel.Props.C13", "CifModel.Props.C13Doc", "CifModel.Props.C13First", "CifModel.Props.C13Lines", "CifModel.Props.C13Clean", "CifModel.Props.ReviewC13"]
 REQUIRED = ["CifModel.C13_text_pure", "CifModel.C13_no_triple", "CifModel.C13_refusal_codes", "CifModel.C13_never_silently_alters",
             "CifModel.C13_value_roundtrip", "CifModel.C13_run", "CifModel.C13_refusal_codes_doc", "CifModel.C13_pure",
             "CifModel.C13_refuses", "CifModel.C13_refuses_value", "CifModel.C13_refuses_char", "CifModel.C13_roundtrip", "CifModel.C13_output_units", "CifModel.C13_roundtrip_sample",
             "CifModel.C13_first_refused", "CifModel.C13_first_none_iff", "CifModel.C13_first_order", "CifModel.C13_first_order_written",
-            "CifModel.C13_roundtrip_nl", "CifModel.C13_line_bound_of_valid"]
+            "CifModel.C13_roundtrip_nl", "CifModel.C13_line_bound_of_valid",
+            "CifModel.C13_success_implies_clean", "CifModel.C13_cr_refused"]
 GEN = ["WriterConsts", "ErrCodes"]
 FAMILIES = ["decode", "writeval11", "write11"]
 TRUSTED_BASE = [
@@ -24,13 +25,15 @@ ASSUMPTIONS = [
 ]
 PARTIAL = [
     "C13_first_refused: WHICH element is refused — for every walk order and every writable CIF cif_write (CIF 1.1) succeeds iff the scan "
-    "containersFirst (container code, save frames, loops; loop-header names before packets; a data name before its value; the characters of "
-    "a string before its presentation; a list or table as such) finds nothing, and otherwise returns the code of the FIRST element it finds "
+    "containersFirst (container code, save frames, loops; loop-header names before packets; a data name before its value; within a string a CR (value) first, then its "
+    "characters, then its presentation; a list or table as such) finds nothing, and otherwise returns the code of the FIRST element it finds "
     "(CIF_DISALLOWED_CHAR for a code / name / string with a character outside CIF 1.1, CIF_DISALLOWED_VALUE for a list, table or string "
     "needing a text field with <LF>;) — property C13 itself does not fix the code when both kinds occur, so the order is compared with the "
     "real code by the model only (family write11: stream of CIFs holding both kinds in random order), not demanded by the oracle",
-    "C13_roundtrip_nl: the CIF 1.1 round trip needs cifR .cif1 and blocksN only (the line-length hypothesis is derived); strings with CR are "
-    "written raw and read back altered: open finding F-cr-altered (C13's 'never succeeds while silently altering content')",
+    "C13_roundtrip_nl: the CIF 1.1 round trip needs cifR .cif1 and blocksN only (the line-length hypothesis is derived); a string with a CR is refused "
+    "with CIF_DISALLOWED_VALUE (repair of F-cr-altered: C13_cr_refused; the CR test precedes the character validation), so "
+    "C13_success_implies_clean: success implies CR-free strings (C13's 'never succeeds while silently altering content'); C13_refuses' "
+    "containersVE accordingly counts a CR as 'cannot be expressed'",
     "C13_refuses (whole documents, every walk order, no assumption on characters or value kinds beyond writability `containersOk`): "
     "cif_write in CIF 1.1 mode succeeds IFF every code / written name / string consists of CIF 1.1 characters (containersCE) and no value "
     "is a list, a table or a string that needs a text field and contains <LF>; (containersVE); on failure the code is CIF_DISALLOWED_CHAR "
@@ -47,6 +50,6 @@ LEVEL_TEXT = ("Proof (partial): in CIF 1.1 mode write_char fails only with CIF_D
               "translated cif11_chars[] / constants and byte-exact differential execution of cif_write in CIF 1.1 mode with a round-trip oracle.")
 LEVEL_NOTE = ("Whole documents: purity, refusal iff inexpressible with the code of the first refused element in walk order (C13_refuses, "
               "C13_first_refused), round trip under cifR and blocksN alone (C13_roundtrip_nl) are proved about the models and checked per generated "
-              "case by the oracle. Open findings: F-unquoted-overlong, F-cr-altered. Trusted: Lean kernel, translator, harness/oracle, ICU, "
+              "case by the oracle. Open finding: F-unquoted-overlong (F-cr-altered is repaired). Trusted: Lean kernel, translator, harness/oracle, ICU, "
               "Model/Analyze of group gA.")
 TECHNIQUE = "Lean 4 proof about an executable model of the writer (CIF 1.1 mode) and of decode_text, tied to the sources by translated constants and byte-exact differential execution"
